@@ -180,30 +180,45 @@ def r4_remove_shape(ctx, res):
         par = getattr(call, '_parent', None)
         if isinstance(par, ast.Subscript):
             res.find(key, c.module.loc(call), f'the list of extensions is truncated: `{norm(par)}`')
-    # each extension id found is deleted, then the lexicon: DELETE FROM lexicons WHERE rowid = ?
-    dels = [s for s in ctx.sites if s.func.key == rm.key
-            and any(v.stmt is not None and v.stmt.verb == 'DELETE' for v in s.variants)]
+    # each extension found is deleted, then the lexicon: DELETE FROM lexicons WHERE rowid = ?  (effect summary of remove();
+    # a private helper that issues the statement is expanded in place)
+    import re as _re
+    from ..speccheck import view
+    rv = view(ctx, '_add', 'remove')
+    dele = [r for r in rv.rows if r[0] in ('call', 'eval') and _re.search(r"\.execute\((f?['\"])\s*DELETE\s+from\s+(\w+)", r[1], _re.I)]
     k2 = 'remove-deletes'
-    res.inst(k2, rm.module.loc(rm.node), f'{len(dels)} DELETE sites in remove()')
-    tables = {v.stmt.target for s in dels for v in s.variants if v.stmt is not None}
-    if tables != {'lexicons'} or len(dels) < 2:
-        res.find(k2, rm.module.loc(rm.node), f'remove() is expected to delete extension rows and the lexicon row from `lexicons` '
-                                             f'(found {len(dels)} DELETE sites on {sorted(tables)})')
-    for s in dels:
-        for v in s.variants:
-            preds = [p.replace(' ', '') for p in v.stmt.where_predicates(0)]
-            if preds != ['rowid=?']:
-                res.find(k2 + ':where', s.loc, f'DELETE in remove() is not keyed by a single rowid: WHERE {preds}')
-    # the loop over extensions is not cut short
-    for n in walk_no_nested(rm.node):
-        if isinstance(n, ast.For) and 'extensions' in norm(n.iter):
-            k3 = 'remove-extension-loop'
-            res.inst(k3, rm.module.loc(n), f'for ... in {norm(n.iter)}')
-            it = n.iter
-            if isinstance(it, ast.Subscript) or any(isinstance(x, ast.Break) for x in ast.walk(n)):
-                res.find(k3, rm.module.loc(n), 'the loop over the extensions is truncated (slice / break)')
-            if not any(s.node.lineno >= n.lineno and s.node.end_lineno <= n.end_lineno for s in dels):
-                res.find(k3, rm.module.loc(n), 'the loop over the extensions no longer deletes them')
+    res.inst(k2, rv.loc(), f'{len(dele)} DELETE effects in remove()')
+    tables = {_re.search(r"DELETE\s+from\s+(\w+)", r[1], _re.I).group(1).lower() for r in dele}
+    lex_loop = 'for list(find_lexicons(lexicon=lexicon))'
+    ext = [r for r in dele if len([c for c in r[3] if c.startswith('for ')]) == 2]
+    own = [r for r in dele if len([c for c in r[3] if c.startswith('for ')]) == 1]
+    if tables != {'lexicons'} or len(ext) != 1 or len(own) != 1 or any(r[3][0] != lex_loop for r in dele):
+        res.find(k2, rv.loc(), f'remove() is expected to delete every extension row and then the lexicon row from `lexicons`, once per matched '
+                               f'lexicon (found {[(r[1][-60:], r[3]) for r in dele]})')
+    for r in dele:
+        m = _re.search(r"WHERE\s+(.+?)['\"],\s*\((.+?),\)\)$", r[1], _re.I)
+        if not m or m.group(1).replace(' ', '') != 'rowid=?':
+            res.find(k2 + ':where', rv.loc(r[4]), f'DELETE in remove() is not keyed by a single rowid: `{r[1][-70:]}`')
+    k3 = 'remove-extension-loop'
+    res.inst(k3, rv.loc(), f'{[r[3] for r in ext]}')
+    if ext:
+        inner = [c for c in ext[0][3] if c.startswith('for ')][1]
+        m = _re.match(r'^for (reversed\()?(#\d+)\)?$', inner)
+        if not m:
+            res.find(k3, rv.loc(ext[0][4]), f'the loop over the extensions is truncated or altered: `{inner}`')
+        else:
+            cell = m.group(2)
+            fill = [r for r in rv.rows if r[0] == 'call' and r[1].startswith(cell + '.append(($2, ')]
+            if len(fill) != 1 or len(fill[0][3]) != 2 or fill[0][3][0] != lex_loop or fill[0][2] \
+                    or fill[0][3][1] not in ('for get_lexicon_extensions($1[0])', 'for get_lexicon_extensions($1[0], depth=-1)'):
+                res.find(k3, rv.loc(ext[0][4]), f'the extensions deleted are no longer all of get_lexicon_extensions(<rowid of the lexicon>): '
+                                                f'{[(r[1][:40], r[3], sorted(r[2])) for r in fill]}')
+            if m.group(0) and not _re.search(r"\(\$2\[0\],\)\)$", ext[0][1]):
+                res.find(k3, rv.loc(ext[0][4]), f'the extension loop does not delete the extension row: `{ext[0][1][-50:]}`')
+        if any(r[0] == 'break' and r[3][:len(ext[0][3])] == ext[0][3] for r in rv.rows):
+            res.find(k3, rv.loc(ext[0][4]), 'the loop over the extensions is cut short by a break')
+    if own and not _re.search(r"\(\$1\[0\],\)\)$", own[0][1]):
+        res.find(k2 + ':own', rv.loc(own[0][4]), f'the lexicon row itself is not deleted by its rowid: `{own[0][1][-50:]}`')
 
 
 def r5_relink(ctx, res):
@@ -280,8 +295,8 @@ def skip_reasons(ctx, res, k2):
     cell = rets[0][1] if rets else None
     marks = [r for r in pv.rows if r[0] == 'store' and cell and r[1].startswith(cell + '[') and not r[1].endswith('] = False')]
     blob = ' | '.join(r[1] + ' ## ' + ' & '.join(sorted(r[2])) for r in marks)
-    own = _re.search(r"WHERE id = :id AND version = :version', \$1\)\.fetchone\(\)", blob)
-    base = _re.search(r"\$1\.get\('extends'\)", blob) and _re.search(r"WHERE id = :id AND version = :version', \$1(\.get\('extends'\)|\['extends'\])\)\.fetchone\(\) is None", blob)
+    own = _re.search(r"\.execute\([^,]+, \$1\)\.fetchone\(\)", blob)
+    base = _re.search(r"\$1\.get\('extends'\)", blob) and _re.search(r"\.execute\([^,]+, \$1(\.get\('extends'\)|\['extends'\])\)\.fetchone\(\) is None", blob)
     keyed = all(_re.match(_re.escape(cell) + r"\[format_lexicon_specifier\(\$1\['id'\], \$1\['version'\]\)\] = ", r[1]) for r in marks) if cell else False
     if not marks or not own or not base or not keyed:
         res.find(k2, pv.loc(), f'_precheck no longer marks a lexicon as skipped for the two documented reasons (already added: a row with '
